@@ -350,13 +350,23 @@ class FileWalk:
         self.fmt_all = 0
         self.fmt_test = 0
 
-    def walk(self, toks, fn, in_test):
+    def walk(self, toks, fn, in_test, cur_let=""):
+        outer_let = cur_let
         i = 0
         n = len(toks)
         pending_fn = None
         skip_item = False
         while i < n:
             t = toks[i]
+            # the variable a template is bound to: innermost enclosing `let NAME ..;`
+            if t.kind == "id" and t.text == "let":
+                j = i + 1
+                while j < n and toks[j].kind == "id" and toks[j].text in ("mut", "ref"):
+                    j += 1
+                if j < n and toks[j].kind == "id":
+                    cur_let = toks[j].text
+            elif t.kind == "punct" and t.text == ";":
+                cur_let = outer_let
             # attributes
             if t.kind == "punct" and t.text == "#" and i + 1 < n and toks[i + 1].kind == "group" and toks[i + 1].text == "[":
                 if _is_cfg_test(toks[i + 1]):
@@ -382,12 +392,20 @@ class FileWalk:
                         if k is None:
                             raise TranslateError("%s:%d: %s! without `span =>`" % (self.rel, t.line, t.text))
                         # the span expression is ordinary Rust code, walk it
-                        self.walk(body[:k], fn, test_here)
+                        self.walk(body[:k], fn, test_here, cur_let)
                         body = body[k + 1:]
                     self._no_nested_quote(body, t.line)
                     if not test_here:
                         where = "%s (fn %s)" % (self.rel, fn)
+                        var = cur_let
+                        k0 = i - 1
+                        while k0 >= 0 and toks[k0].kind == "punct" and toks[k0].text == "&":
+                            k0 -= 1
+                        if k0 >= 1 and toks[k0].kind == "punct" and toks[k0].text in (":", "=") and toks[k0 - 1].kind == "id":
+                            # `name: quote!{..}` (field init) / `name = quote!{..}` (assignment, also the `let` itself)
+                            var = toks[k0 - 1].text
                         self.templates.append({
+                            "var": var,
                             "file": self.rel, "fn": fn or "", "index": len(self.templates), "line": t.line,
                             "macro": t.text, "delim": g.text, "tokens": to_ttok(body, where)})
                     i += 3
@@ -403,11 +421,11 @@ class FileWalk:
                     if not test_here:
                         self.format_idents.append({"file": self.rel, "fn": fn or "", "line": t.line, "kind": "format_ident",
                                                    "fmt": first.text[1:-1]})
-                    self.walk(g.sub, fn, test_here)
+                    self.walk(g.sub, fn, test_here, cur_let)
                     i += 3
                     continue
                 # any other macro: ordinary Rust inside (vec!, matches!, format!, macro_rules! name (...))
-                self.walk(g.sub, fn, in_test or skip_item)
+                self.walk(g.sub, fn, in_test or skip_item, cur_let)
                 i += 3
                 continue
             if t.kind == "id" and t.text in QUOTE_MACROS + ("format_ident",) and i + 1 < n \
@@ -423,12 +441,12 @@ class FileWalk:
                                                "kind": t.text + "::new", "fmt": a[0].text[1:-1]})
             if t.kind == "group":
                 if t.text == "{":
-                    self.walk(t.sub, pending_fn or fn, in_test or skip_item)
+                    self.walk(t.sub, pending_fn or fn, in_test or skip_item, cur_let)
                     pending_fn = None
                     if skip_item:
                         skip_item = False
                 else:
-                    self.walk(t.sub, fn, in_test or skip_item)
+                    self.walk(t.sub, fn, in_test or skip_item, cur_let)
             elif t.kind == "punct" and t.text == ";" and skip_item:
                 skip_item = False
             i += 1
@@ -643,8 +661,8 @@ def render_coq(ex):
         nm = "tpl_%d" % k
         names.append(nm)
         lines.append("(* %s:%d  fn %s  #%d  %s!%s *)" % (t["file"], t["line"], t["fn"], t["index"], t["macro"], t["delim"]))
-        lines.append("Definition %s : template := {| t_file := %s; t_fn := %s; t_index := %d; t_line := %d;" % (
-            nm, coq_string(t["file"]), coq_string(t["fn"]), t["index"], t["line"]))
+        lines.append("Definition %s : template := {| t_file := %s; t_fn := %s; t_index := %d; t_line := %d; t_var := %s;" % (
+            nm, coq_string(t["file"]), coq_string(t["fn"]), t["index"], t["line"], coq_string(t.get("var", ""))))
         lines.append("  t_tokens := %s |}." % coq_ttoks(t["tokens"], 4))
     lines.append("")
     lines.append("Definition templates : list template := [%s]." % "; ".join(names))
